@@ -93,6 +93,12 @@ func observe16(c caseC16) (obs []string) {
 		if err == nil {
 			d0, _, _ := dumpOf(p)
 			put("dump", hex.EncodeToString(d0))
+			// a program is not altered by calls made after it was returned
+			bcl.Parse([]byte("\n\n\n\nprint 1\n\n\n# other\ndef o {\n}\n"), "o", bcl.OptOutput(io.Discard), bcl.OptLogger(io.Discard))
+			bcl.Parse([]byte("print )\n\nprint )"), "o", bcl.OptOutput(io.Discard), bcl.OptLogger(io.Discard))
+			if dx, _, _ := dumpOf(p); !bytes.Equal(dx, d0) {
+				put("prog-altered-by-a-later-call", true)
+			}
 			// the caller may reuse its input buffer after the call returned
 			copy(sharedInput[:], c.Src)
 			if len(c.Src) <= len(sharedInput) {
@@ -238,6 +244,9 @@ func checkC16(c caseC16, repeats int) string {
 	if i := strings.Index(first, "outcome-depends-on-an-earlier-call="); i >= 0 {
 		return "the outcome of a call depends on a call made earlier in the process: " + clip(first[i:], 600)
 	}
+	if strings.Contains(first, "prog-altered-by-a-later-call=true") {
+		return "a Prog returned by Parse dumps differently after other sources were parsed (a later call altered it)"
+	}
 	if strings.Contains(first, "input-buffer-reuse-changes-the-program=true") {
 		return "a program parsed from a buffer that the caller reuses afterwards differs from the same program parsed from a private copy"
 	}
@@ -277,8 +286,16 @@ func genUnmarshal16(t *rapid.T) (caseC16, []string) {
 	var feats []string
 	target := gen.Pick(t, "target", []string{"struct", "slice"})
 	nblocks := 1
+	pFault, pUnknown := 20, 25
 	if target == "slice" {
 		nblocks = gen.Int(t, 1, 3, "nblocks")
+		if gen.Chance(t, 6, "manyblocks") {
+			// a long slice with a few faulty blocks far apart: which error is
+			// returned must not depend on how the work is scheduled
+			nblocks = gen.Int(t, 64, 200, "manyblocks-n")
+			pFault, pUnknown = 1, 1
+			feats = append(feats, "many-blocks")
+		}
 	}
 	collide, faults := 0, 0
 	for b := 0; b < nblocks; b++ {
@@ -293,7 +310,7 @@ func genUnmarshal16(t *rapid.T) (caseC16, []string) {
 					continue
 				}
 				used[sp] = true
-				faulty := gen.Chance(t, 20, "faulty")
+				faulty := gen.Chance(t, pFault, "faulty")
 				if faulty {
 					faults++
 				}
@@ -303,7 +320,7 @@ func genUnmarshal16(t *rapid.T) (caseC16, []string) {
 				collide++
 			}
 		}
-		if gen.Chance(t, 25, "unknownkey") {
+		if gen.Chance(t, pUnknown, "unknownkey") {
 			fmt.Fprintf(&sb, "  %s = 1\n", gen.Pick(t, "unk", []string{"zzz", "aaa", "qq_q"}))
 			faults++
 		}
@@ -378,13 +395,22 @@ func genC16(t *rapid.T) (caseC16, bool, []string) {
 		cfg := acceptedCfg(t)
 		cfg.PIllegal = 15
 		cfg.PDivZero = 20
+		feats := []string{"kind:prog"}
+		if gen.Chance(t, 15, "foldnames") {
+			// names that differ only by case and underscores, and a read of one
+			// that is not defined: whatever a diagnostic says about the others
+			// must not depend on map order
+			cfg.Names = []string{"max_size", "maxSize", "MaxSize", "maxsize", "MAX_SIZE"}
+			cfg.PUnknown = 60
+			cfg.WAsg, cfg.WVar, cfg.WPrint, cfg.WDef, cfg.WBind = 45, 5, 20, 25, 5
+			feats = append(feats, "prog:names-of-one-folding-class")
+		}
 		p, _ := gen.GenProg(t, cfg)
 		o := ref.Run(p)
 		if o.Unspecified != "" && o.Unspecified != "comparison with NaN" {
 			return caseC16{}, false, []string{"skipped:" + o.Unspecified}
 		}
 		toks := gen.RenderProg(p).Toks
-		feats := []string{"kind:prog"}
 		nmut := gen.Weighted(t, "nmut", 60, 25, 15)
 		for i := 0; i < nmut && len(toks) > 0; i++ {
 			toks = gen.GenMutation(t, toks, 10).Apply(toks)
